@@ -48,6 +48,7 @@ pub struct Acc {
     pub samples: Vec<Value>,
     pub violations: Vec<Violation>,
     pub hist: BTreeMap<String, BTreeMap<String, u64>>,
+    pub cat_counts: BTreeMap<String, u64>,
 }
 
 impl Acc {
@@ -84,17 +85,58 @@ impl Acc {
     }
     pub fn violate(&mut self, key: String, clause: &str, what: String, replay: Value) {
         self.inc("violations_raw");
-        // keep memory bounded: at most 200 per worker, distinct keys preferred
-        if self.violations.len() < 200 || !self.violations.iter().any(|v| v.key == key) {
-            if self.violations.len() < 2000 {
-                self.violations.push(Violation {
-                    key,
-                    clause: clause.to_string(),
-                    what,
-                    replay,
-                });
+        // keep memory bounded: at most 300 stored per category (first two key components) per accumulator
+        let cat: String = key.split('/').take(2).collect::<Vec<_>>().join("/");
+        let c = self.cat_counts.entry(cat).or_insert(0);
+        *c += 1;
+        if *c <= 300 {
+            self.violations.push(Violation {
+                key,
+                clause: clause.to_string(),
+                what,
+                replay,
+            });
+        }
+    }
+    /// JSON form for worker processes
+    pub fn to_json(&self) -> Value {
+        json!({
+            "counters": self.counters,
+            "maxima": self.maxima.iter().filter(|(_, v)| v.is_finite()).map(|(k, v)| (k.clone(), json!(v))).collect::<Map<String, Value>>(),
+            "hist": self.hist,
+            "samples": self.samples,
+            "violations": self.violations.iter().map(|v| json!({"key": v.key, "clause": v.clause, "what": v.what, "replay": v.replay})).collect::<Vec<_>>(),
+        })
+    }
+    pub fn from_json(v: &Value) -> Acc {
+        let mut a = Acc::new();
+        if let Some(m) = v["counters"].as_object() {
+            for (k, x) in m {
+                a.counters.insert(k.clone(), x.as_u64().unwrap_or(0));
             }
         }
+        if let Some(m) = v["maxima"].as_object() {
+            for (k, x) in m {
+                a.maxima.insert(k.clone(), x.as_f64().unwrap_or(f64::NAN));
+            }
+        }
+        if let Some(m) = v["hist"].as_object() {
+            for (h, b) in m {
+                for (k, x) in b.as_object().cloned().unwrap_or_default() {
+                    a.hist.entry(h.clone()).or_default().insert(k, x.as_u64().unwrap_or(0));
+                }
+            }
+        }
+        a.samples = v["samples"].as_array().cloned().unwrap_or_default();
+        for x in v["violations"].as_array().cloned().unwrap_or_default() {
+            a.violations.push(Violation {
+                key: x["key"].as_str().unwrap_or("").to_string(),
+                clause: x["clause"].as_str().unwrap_or("").to_string(),
+                what: x["what"].as_str().unwrap_or("").to_string(),
+                replay: x["replay"].clone(),
+            });
+        }
+        a
     }
     pub fn merge(&mut self, o: Acc) {
         for (k, v) in o.counters {
